@@ -426,6 +426,13 @@ def main(argv=None):
     from . import anchors
 
     anchor_cov = anchors.coverage(prop, REPO, m["lines"])
+    try:
+        # statement lines of the library that ran, for tools/reach.py (the union over all checks shows what no workload drives)
+        os.makedirs(os.path.join(VERIF, "out", "reach"), exist_ok=True)
+        with open(os.path.join(VERIF, "out", "reach", "%s-%s.json" % (prop, tier)), "w") as f:
+            json.dump({k: sorted(v) for k, v in m["lines"].items()}, f)
+    except OSError:
+        pass
     fin = mod.finalize(m, tier) if hasattr(mod, "finalize") else {}
     inconclusive = list(fin.get("inconclusive", []))
     for e in m["errors"]:
